@@ -77,18 +77,28 @@ class LocalFileHandler(abc.FileHandler):
                 yield unused_kw
             except:
                 LOGGER.debug("Aborting transaction due to exception")
-                dry_run = True
                 raise
-            finally:
-                for file in self.__transaction:
-                    tmpname = _tmpname(file)
-                    if dry_run:
-                        LOGGER.debug("Removing temporary file %s", tmpname)
-                        (self.path / tmpname).unlink()
-                    else:
+            else:
+                if not dry_run:
+                    for file in tuple(self.__transaction):
+                        tmpname = _tmpname(file)
                         LOGGER.debug("Committing file %s to %s", tmpname, file)
                         (self.path / tmpname).replace(self.path / file)
-                self.__transaction = None
+                        self.__transaction.discard(file)
+            finally:
+                # Whatever was not committed is rolled back. This must
+                # neither mask the error that got us here nor leave the
+                # handler with a stale transaction.
+                pending, self.__transaction = self.__transaction, None
+                for file in pending:
+                    tmpname = _tmpname(file)
+                    LOGGER.debug("Removing temporary file %s", tmpname)
+                    try:
+                        (self.path / tmpname).unlink(missing_ok=True)
+                    except OSError as err:
+                        LOGGER.warning(
+                            "Cannot remove temporary file %s: %s", tmpname, err
+                        )
 
     @property
     def rootdir(self) -> LocalFilePath:
